@@ -2,7 +2,7 @@
    exactly the observations of the ordered byte-string map. *)
 From Common Require Import Bytes Outcome.
 From Trie Require Import Nibbles Node Encode Model Spec NibblesProofs Sem InsertProofs DeleteProofs
-     BuildProofs MapProofs QueryProofs ClearProofs LimitProofs.
+     BuildProofs MapProofs QueryProofs ClearProofs LimitProofs SpecProofs GoSpec GoPrefixProofs.
 From C02 Require Import Model Guards.
 From Coq Require Import Arith Lia.
 
@@ -16,6 +16,27 @@ Fixpoint guards_free (m : bmap) (t : trie) (ops : list op) : bool :=
 Lemma listing_rep t m : Rep t m -> trie_entries t = bm_listing m.
 Proof. intros R. now rewrite (Rep_entries t m R). Qed.
 
+
+(* limit 0: the Go code returns (0, false) untouched; so does the map when a key has the prefix *)
+Lemma limit_zero_both t m p : guard_limit_zero m p 0 = false ->
+  trie_clear_prefix_limit t p 0 = (t, 0%N, false) /\ bm_clear_prefix_limit m p 0 = (m, 0%N, false).
+Proof.
+  intros G2. split; [reflexivity|]. unfold guard_limit_zero in G2. cbn [N.eqb andb] in G2.
+  apply bm_clear_limit_zero.
+  destruct (existsb (bmatch p) m) eqn:Ex; auto. exfalso.
+  assert (forallb (fun e => negb (bytes_prefix p (fst e))) m = true); [|congruence].
+  apply forallb_forall. intros e He. destruct (bytes_prefix p (fst e)) eqn:B; auto.
+  assert (existsb (bmatch p) m = true); [|congruence].
+  apply existsb_exists. exists e. auto.
+Qed.
+(* outside guard_trim_limit the Go rule and the byte-wise rule give the same limited clear *)
+Lemma go_limit_is_bm m p l : l <> 0%N -> guard_trim_limit m p l = false ->
+  go_clear_prefix_limit m p l = bm_clear_prefix_limit m p l.
+Proof.
+  intros Z G. unfold go_clear_prefix_limit. destruct (N.eqb_spec l 0); [congruence|].
+  now rewrite bm_clear_prefix_limit_by, trim_limit_agree.
+Qed.
+
 Lemma step_correct t m o : Rep t m -> guard_of m t o = 0 ->
   snd (trie_step repaired t o) = snd (bm_step m o) /\
   Rep (fst (trie_step repaired t o)) (fst (bm_step m o)).
@@ -27,13 +48,18 @@ Proof.
     pose proof (Rep_delete t m k R Gd) as R'. split; auto. now rewrite (listing_rep _ _ R').
   - destruct (guard_trim m p) eqn:Gt; [discriminate|].
     pose proof (Rep_clear_prefix t m p R Gt) as R'. split; auto. now rewrite (listing_rep _ _ R').
-  - destruct (guard_trim m p) eqn:Gt; [discriminate|].
-    destruct (guard_limit_zero m p l) eqn:Gz; [discriminate|].
-    destruct (guard_limit_order m p l) eqn:Go; [discriminate|].
-    destruct (Rep_clear_prefix_limit t m p l R Gt Gz Go) as (R' & Ed & Ea).
-    destruct (trie_clear_prefix_limit t p l) as [[t' d] a].
-    destruct (bm_clear_prefix_limit m p l) as [[m' d'] a']. cbn [fst snd] in *. subst.
-    split; auto. now rewrite (listing_rep _ _ R').
+  - destruct (N.eqb_spec l 0) as [->|Z].
+    + (* limit 0: some key has the prefix, so both sides report "not all deleted" *)
+      destruct (guard_limit_zero m p 0) eqn:Gz; [discriminate|].
+      destruct (limit_zero_both t m p Gz) as [Et Eb]. rewrite Et, Eb. cbn [fst snd]. split; auto.
+      now rewrite (listing_rep _ _ R).
+    + destruct (guard_limit_order_go m p l) eqn:Go; [discriminate|].
+      destruct (guard_trim_limit m p l) eqn:Gt; [discriminate|].
+      destruct (Rep_clear_prefix_limit_go t m p l R Z Go) as (R' & Ed & Ea).
+      rewrite (go_limit_is_bm m p l Z Gt) in R', Ed, Ea.
+      destruct (trie_clear_prefix_limit t p l) as [[t' d] a].
+      destruct (bm_clear_prefix_limit m p l) as [[m' d'] a']. cbn [fst snd] in *. subst.
+      split; auto. now rewrite (listing_rep _ _ R').
   - destruct (guard_get_exhausted t k) eqn:Gg; [discriminate|].
     split; auto. now rewrite (Rep_get t m k R Gg).
   - split; auto. now rewrite (Rep_next_key t m k R).
@@ -134,6 +160,163 @@ Proof.
     pose proof (G2 (k, v) (or_introl eq_refl)) as H0. cbn [fst] in H0. apply negb_true_iff in H0. rewrite H0.
     rewrite IH; auto. intros x Hx. apply G2. simpl; auto. }
   rewrite X. cbn [snd]. discriminate.
+Qed.
+
+
+(* ---- exactness of the remaining guards (audit round) ---- *)
+Lemma bm_listing_inj a b : bm_listing a = bm_listing b -> a = b.
+Proof.
+  revert b; induction a as [|[k v] a IH]; intros [|[k' v'] b] E; try discriminate; auto.
+  simpl in E. inversion E; subst. f_equal. now apply IH.
+Qed.
+
+(* ClearPrefix inside the trim guard: the entry listing afterwards differs from the map's *)
+Theorem guard_trim_exact_clear t m p : Rep t m -> guard_trim m p = true ->
+  trie_entries (trie_clear_prefix t p) <> bm_listing (bm_clear_prefix m p).
+Proof.
+  intros R G E. rewrite (listing_rep _ _ (Rep_clear_prefix_go t m p R)) in E.
+  apply bm_listing_inj in E. exact (go_clear_exact m p G E).
+Qed.
+
+(* limited clear inside the (narrowed) trim guard, outside the order guard: the observation differs *)
+Theorem guard_trim_limit_exact t m p l : Rep t m -> l <> 0%N ->
+  guard_limit_order_go m p l = false -> guard_trim_limit m p l = true ->
+  snd (trie_step repaired t (OpClearLimit p l)) <> snd (bm_step m (OpClearLimit p l)).
+Proof.
+  intros R Z Go Gt. cbn [trie_step bm_step repaired i_clear_limit i_entries].
+  destruct (Rep_clear_prefix_limit_go t m p l R Z Go) as (R' & Ed & Ea).
+  pose proof (trim_limit_exact m p l Gt) as X. rewrite <- bm_clear_prefix_limit_by in X.
+  unfold go_clear_prefix_limit in *. destruct (N.eqb_spec l 0); [congruence|].
+  destruct (trie_clear_prefix_limit t p l) as [[t' d] a].
+  destruct (clear_limit_by (gmatch p) m l) as [[g' gd] ga].
+  destruct (bm_clear_prefix_limit m p l) as [[m' d'] a']. cbn [fst snd] in *. subst.
+  intros E. inversion E as [[E1 E2 E3]]. rewrite (listing_rep _ _ R') in E3.
+  apply bm_listing_inj in E3. subst. now apply X.
+Qed.
+
+(* Delete inside the exhausted-key guard: an entry disappears although the map is unchanged *)
+Lemma bm_del_absent m k : bm_get m k = None -> bm_del m k = m.
+Proof.
+  induction m as [|[k' v'] m IH]; simpl; auto. destruct (bytes_eqb k' k); [discriminate|].
+  intros H. now rewrite IH.
+Qed.
+Lemma handle_deletion_none_key pk cs k : handle_deletion pk None cs k = handle_deletion pk None cs pk.
+Proof. unfold handle_deletion. destruct (count_children cs) as [|[|n]]; reflexivity. Qed.
+
+Theorem guard_delete_exact t m k : Rep t m -> guard_delete_exhausted t k = true ->
+  length (trie_entries (trie_delete t k)) < length (bm_listing (bm_del m k)).
+Proof.
+  intros R G. unfold guard_delete_exhausted in G.
+  destruct k as [|b0 k0]; [|discriminate].
+  assert (Absent : bm_get m [] = None).
+  { rewrite <- (Rep_lookup t m [] R). cbn [key_le_to_nibbles].
+    destruct t as [[pk lv|pk [bv|] cs]|]; try discriminate; cbn [lookup_opt].
+    - cbn [lookup]. destruct pk; [simpl in G; discriminate|reflexivity].
+    - apply lookup_branch_out. destruct pk; [simpl in G; discriminate|reflexivity]. }
+  rewrite (bm_del_absent m [] Absent). unfold trie_entries, bm_listing. rewrite !map_length.
+  destruct R as [C E0]. apply (f_equal (@length _)) in E0. unfold kv_of_bmap in E0. rewrite map_length in E0.
+  rewrite <- E0. clear E0 Absent.
+  destruct t as [[pk lv|pk [bv|] cs]|]; try discriminate; cbn [trie_delete key_le_to_nibbles].
+  - cbn [delete length Nat.ltb Nat.leb andb fst entries entries_node]. simpl. lia.
+  - rewrite delete_branch. cbn [length Nat.eqb orb fst].
+    apply Canon_branch_inv in C as (Hpk & L & F & C1 & C2).
+    rewrite handle_deletion_none_key.
+    destruct (handle_deletion_spec pk None cs pk Hpk L F) as [Hc Hl].
+    { unfold occupants. simpl. lia. }
+    { apply is_prefix_refl. }
+    cbn [entries]. fold (E (handle_deletion pk None cs pk)). fold (E (Branch pk (Some bv) cs)).
+    rewrite (entries_lookup_ext _ _ Hl), !E_branch, !shift_length, !app_length. simpl. lia.
+Qed.
+
+(* ---- the trie is the ordered map under the Go matching rule, also inside prefix-trim and
+   clear-limit-zero ---- *)
+Fixpoint guards_go_free (m : bmap) (t : trie) (ops : list op) : bool :=
+  match ops with
+  | [] => true
+  | o :: r => (guard_go_of t m o =? 0) && guards_go_free (fst (gm_step m o)) (fst (trie_step repaired t o)) r
+  end.
+
+Lemma step_go_correct t m o : Rep t m -> guard_go_of t m o = 0 ->
+  snd (trie_step repaired t o) = snd (gm_step m o) /\
+  Rep (fst (trie_step repaired t o)) (fst (gm_step m o)).
+Proof.
+  intros R G. destruct o as [k v|k|p|p l|k|k|p|]; cbn [trie_step gm_step bm_step repaired i_get i_delete i_clear
+    i_clear_limit i_keys i_entries fst snd guard_go_of] in *.
+  - pose proof (Rep_put t m k v R) as R'. split; auto. now rewrite (listing_rep _ _ R').
+  - destruct (guard_delete_exhausted t k) eqn:Gd; [discriminate|].
+    pose proof (Rep_delete t m k R Gd) as R'. split; auto. now rewrite (listing_rep _ _ R').
+  - pose proof (Rep_clear_prefix_go t m p R) as R'. split; auto. now rewrite (listing_rep _ _ R').
+  - destruct (guard_limit_order_go m p l) eqn:Go; [discriminate|].
+    destruct (N.eqb_spec l 0) as [->|Z].
+    + unfold trie_clear_prefix_limit, trie_clear_prefix_limit_pinned, go_clear_prefix_limit.
+      cbn [N.eqb fst snd]. split; auto. now rewrite (listing_rep _ _ R).
+    + destruct (Rep_clear_prefix_limit_go t m p l R Z Go) as (R' & Ed & Ea).
+      destruct (trie_clear_prefix_limit t p l) as [[t' d] a].
+      destruct (go_clear_prefix_limit m p l) as [[m' d'] a']. cbn [fst snd] in *. subst.
+      split; auto. now rewrite (listing_rep _ _ R').
+  - destruct (guard_get_exhausted t k) eqn:Gg; [discriminate|].
+    split; auto. now rewrite (Rep_get t m k R Gg).
+  - split; auto. now rewrite (Rep_next_key t m k R).
+  - split; auto. now rewrite (Rep_keys_go t m p R).
+  - split; auto. now rewrite (listing_rep _ _ R).
+Qed.
+
+Lemma gm_step_no_panic m o : is_panic (snd (gm_step m o)) = false.
+Proof.
+  destruct o; cbn [gm_step bm_step snd]; auto.
+  - destruct (go_clear_prefix_limit m p limit) as [[m' d] a]. reflexivity.
+Qed.
+
+Lemma run_go_correct ops : forall t m, Rep t m -> guards_go_free m t ops = true ->
+  run_trie repaired t ops = run_gomap m ops.
+Proof.
+  induction ops as [|o ops IH]; intros t m R G; cbn [run_trie run_gomap]; auto.
+  cbn [guards_go_free] in G. apply andb_true_iff in G as [G1 G2]. apply Nat.eqb_eq in G1.
+  destruct (step_go_correct t m o R G1) as [Es R'].
+  destruct (trie_step repaired t o) as [t' x]. destruct (gm_step m o) as [m' x'] eqn:Eb.
+  cbn [fst snd] in *. subst x.
+  pose proof (gm_step_no_panic m o) as Np. rewrite Eb in Np. cbn [snd] in Np. rewrite Np.
+  f_equal. apply IH; auto.
+Qed.
+
+Theorem refines_go ops : guards_go_free [] None ops = true -> run_trie repaired None ops = run_gomap [] ops.
+Proof. intros G. apply run_go_correct; auto. apply Rep_empty. Qed.
+
+(* ---- every reachable state represents the map: the hypothesis of C02_step / C02_guards_exact is met ---- *)
+Lemma run_states ops : forall t m, Rep t m -> guards_free m t ops = true ->
+  forall i, Rep (trie_before repaired t ops i) (bmap_before m ops i).
+Proof.
+  induction ops as [|o ops IH]; intros t m R G i; [destruct i; exact R|].
+  destruct i as [|j]; [exact R|]. cbn [trie_before bmap_before].
+  cbn [guards_free] in G. apply andb_true_iff in G as [G1 G2]. apply Nat.eqb_eq in G1.
+  apply IH; auto. apply (step_correct t m o R G1).
+Qed.
+
+
+(* ---- the guards of a limited clear only compare the limit with list lengths: a limit above the
+   number of stored keys can be replaced by (number of keys + 1).  The driver evaluates guard_of on
+   the clamped operation (N.to_nat of 0xffffffff is not computable in unary). ---- *)
+Lemma filter_len_le {A} (f : A -> bool) l : length (filter f l) <= length l.
+Proof. induction l as [|x l IH]; simpl; auto. destruct (f x); simpl; lia. Qed.
+
+Lemma guard_of_clamp m t p l :
+  guard_of m t (OpClearLimit p l) = guard_of m t (OpClearLimit p (N.min l (N.of_nat (S (length m))))).
+Proof.
+  destruct (N.le_gt_cases l (N.of_nat (S (length m)))) as [Le|Gt]; [now rewrite N.min_l|].
+  rewrite N.min_r by lia. set (c := N.of_nat (S (length m))).
+  cbn [guard_of]. destruct (N.eqb_spec l 0) as [->|_]; [lia|]. destruct (N.eqb_spec c 0) as [E|_]; [unfold c in E; lia|].
+  pose proof (filter_len_le (gmatch p) m) as LG. pose proof (filter_len_le (bmatch_b p) m) as LB.
+  assert (Ho : forall x, (S (length m) <= N.to_nat x) -> guard_limit_order_go m p x = false).
+  { intros x Hx. unfold guard_limit_order_go. rewrite map_length.
+    replace (N.to_nat x <? length (filter (gmatch p) m)) with false by (symmetry; apply Nat.ltb_ge; lia).
+    now rewrite andb_false_r. }
+  assert (Ht : forall x, (S (length m) <= N.to_nat x) ->
+             guard_trim_limit m p x = negb (forallb (bmatch_b p) (filter (gmatch p) m))).
+  { intros x Hx. unfold guard_trim_limit. rewrite firstn_all2 by lia.
+    replace (length (filter (gmatch p) m) <=? N.to_nat x) with true by (symmetry; apply Nat.leb_le; lia).
+    replace (length (filter (bmatch_b p) m) <=? N.to_nat x) with true by (symmetry; apply Nat.leb_le; lia).
+    cbn [Bool.eqb negb]. now rewrite orb_false_r. }
+  rewrite !Ho, !Ht by (unfold c; lia). reflexivity.
 Qed.
 
 (* ---- witnesses ---- *)
